@@ -4,7 +4,7 @@ from core import *
 
 FIXTURE = os.path.join(VERIF, "selftest", "fixtures", "alias_fix.c")
 EXPECT = {"fix_stale_ptr": ("R-STALE", "stale:up"), "fix_clobber_order": ("R-CLOBBER", "clobber:v:w"),
-          "fix_alias_good": None, "fix_alias_guarded": None}
+          "fix_extent_carry": ("R-EXTENT", "overrun:w"), "fix_alias_good": None, "fix_alias_guarded": None}
 
 
 def run(prop="C05", tier="quick", rules=("R-STALE", "R-CLOBBER")):
@@ -12,6 +12,8 @@ def run(prop="C05", tier="quick", rules=("R-STALE", "R-CLOBBER")):
     fx = [f for f in r["findings"] if f.file == FIXTURE]
     r["findings"] = [f for f in r["findings"] if f.file != FIXTURE]
     for fname, exp in EXPECT.items():
+        if exp is not None and exp[0] not in rules:
+            continue
         got = [(f.rule, f.signature) for f in fx if f.function == fname]
         if exp is None and got:
             raise AnalysisBroken("aliasflow fires on its negative fixture %s: %s" % (fname, got))
@@ -21,6 +23,9 @@ def run(prop="C05", tier="quick", rules=("R-STALE", "R-CLOBBER")):
     if st.get("functions", 0) < 180:
         raise AnalysisBroken("aliasflow analysed only %d functions (floor 180)" % st.get("functions", 0))
     r["obligations"] = st.get("limb_pointer_uses", 0) + st.get("input_reads", 0)
+    if "R-EXTENT" in rules:
+        r["obligations"] += st.get("extent_obligations", 0)
+        r["undecided"] = st.get("extent_undecided", 0)
     r["notes"].append("fixtures: 2 positive fired, 2 negative silent; %d reviewed exception sites (spec/alias_exceptions.tsv)" % 5)
     r["samples"].append(dict(rule="aliasflow", functions=st.get("functions"), realloc_events=st.get("realloc_events"),
                              limb_pointer_uses=st.get("limb_pointer_uses"), input_reads=st.get("input_reads"),
@@ -29,5 +34,6 @@ def run(prop="C05", tier="quick", rules=("R-STALE", "R-CLOBBER")):
     return r
 
 
-def run_stale(prop="C04", tier="quick"):
-    return run(prop, tier, rules=("R-STALE",))
+def run_mem(prop="C04", tier="quick"):
+    """C04 view: stale limb pointers and writes past the size just requested"""
+    return run(prop, tier, rules=("R-STALE", "R-EXTENT"))
